@@ -1,6 +1,25 @@
 //! One worker sub-command per property + the generic case driver.
 
+pub mod c01;
+pub mod c02;
+pub mod c03;
+pub mod c04;
+pub mod c05;
+pub mod c06;
+pub mod c07;
 pub mod c08;
+pub mod c09;
+pub mod c10;
+pub mod c11;
+pub mod c12;
+pub mod c13;
+pub mod c14;
+pub mod c15;
+pub mod c16;
+pub mod c17;
+pub mod c18;
+pub mod c19;
+pub mod c20;
 pub mod probe;
 
 use crate::util::{Args, Out, Rng, catch, fp};
@@ -16,7 +35,26 @@ pub struct Prop {
 
 fn table(p: &str) -> Option<Prop> {
     Some(match p {
+        "C01" => Prop { meta: c01::meta, run: c01::run, replay: c01::replay },
+        "C02" => Prop { meta: c02::meta, run: c02::run, replay: c02::replay },
+        "C03" => Prop { meta: c03::meta, run: c03::run, replay: c03::replay },
+        "C04" => Prop { meta: c04::meta, run: c04::run, replay: c04::replay },
+        "C05" => Prop { meta: c05::meta, run: c05::run, replay: c05::replay },
+        "C06" => Prop { meta: c06::meta, run: c06::run, replay: c06::replay },
+        "C07" => Prop { meta: c07::meta, run: c07::run, replay: c07::replay },
         "C08" => Prop { meta: c08::meta, run: c08::run, replay: c08::replay },
+        "C09" => Prop { meta: c09::meta, run: c09::run, replay: c09::replay },
+        "C10" => Prop { meta: c10::meta, run: c10::run, replay: c10::replay },
+        "C11" => Prop { meta: c11::meta, run: c11::run, replay: c11::replay },
+        "C12" => Prop { meta: c12::meta, run: c12::run, replay: c12::replay },
+        "C13" => Prop { meta: c13::meta, run: c13::run, replay: c13::replay },
+        "C14" => Prop { meta: c14::meta, run: c14::run, replay: c14::replay },
+        "C15" => Prop { meta: c15::meta, run: c15::run, replay: c15::replay },
+        "C16" => Prop { meta: c16::meta, run: c16::run, replay: c16::replay },
+        "C17" => Prop { meta: c17::meta, run: c17::run, replay: c17::replay },
+        "C18" => Prop { meta: c18::meta, run: c18::run, replay: c18::replay },
+        "C19" => Prop { meta: c19::meta, run: c19::run, replay: c19::replay },
+        "C20" => Prop { meta: c20::meta, run: c20::run, replay: c20::replay },
         _ => return None,
     })
 }
